@@ -357,8 +357,9 @@ let next_item t : item =
   | "hello" -> IHello
   | k -> failwith ("bad item " ^ k)
 (* one scenario operation = one or several environment labels, then quiescence *)
-let next_life_op t : label list =
-  match next t with
+type lop = L of label list | Park of bool
+let next_life_labels t (k : string) : label list =
+  match k with
   | "run" -> let v = next_bool t in let o = next_bool t in [ECallRun (v, o)]
   | "stop" -> [ECallStop]
   | "connect" -> [EConnect]
@@ -369,7 +370,12 @@ let next_life_op t : label list =
   | "release" -> [ERelease (nat_of_int (next_int t))]
   | "holdonclose" -> [EHoldOnClose (next_bool t)]
   | "accepterr" -> [EAcceptErr; EConnect]
+  | "sleep" -> let _ = next t in []
   | k -> failwith ("bad life op " ^ k)
+let next_life_op t : lop =
+  match next t with
+  | "parkaccept" -> Park (next_bool t)
+  | k -> L (next_life_labels t k)
 let cfg_of_string (s : string) : config =
   let parts = String.split_on_char ':' s in
   let base = (match List.hd parts with "fixed" -> fixed_cfg | "pinned" -> pinned_cfg | k -> failwith ("bad cfg " ^ k)) in
@@ -383,7 +389,7 @@ let cfg_of_string (s : string) : config =
          | "stop_interrupts" -> { c with stop_interrupts = b } | "ready_on_error" -> { c with ready_on_error = b }
          | "close_on_cancel" -> { c with close_on_cancel = b } | "unbind" -> { c with has_unbind_route = b }
          | "onclose" -> { c with has_onclose = b } | "accept_retry" -> { c with accept_retry = b } | "untrack_late" -> { c with untrack_late = b }
-         | "addr" | "tls" | "readtimeout" | "race" | "dflt" -> c     (* worker options, not model parameters *)
+         | "addr" | "tls" | "readtimeout" | "race" | "dflt" | "stopdelay" -> c     (* worker options, not model parameters *)
          | _ -> failwith ("bad cfg key " ^ k))
       | _ -> failwith "bad cfg kv") base (List.tl parts)
 let kind_char = function KNormal -> "n" | KStartTLS -> "t" | KUnbind -> "u"
@@ -398,18 +404,32 @@ let snapshot (s : state) : string =
       (b01 c.sock_closed) (int_of_nat c.onclose) (int_of_nat c.sent) in
   Printf.sprintf "alive=%s ready=%s run=%s stops=%d/%d port=%s %s" (b01 s.alive) (b01 s.ready) runs nret
     (List.length s.stops) (b01 s.port_bound) (String.concat " " (List.mapi conn_s s.conns))
+(* parkaccept: the scenario holds the Run goroutine between Accept and newConn.  The scheduler
+   used for the prediction then is the canonical one minus LRun in state RAccepted: still a run
+   of the LTS (every step is the model's), only the choice among enabled steps differs. *)
+let parked = ref false
+let rec quiesce_parked cfg (fuel : int) (s : state) : state =
+  if fuel = 0 then s else
+  let labels = List.filter (fun l -> not (l = LRun && s.run = RAccepted)) (internal_labels s) in
+  match first_enabled cfg s labels with
+  | Some s' -> quiesce_parked cfg (fuel - 1) s'
+  | None -> s
 let do_life t =
   let cfg = cfg_of_string (next t) in
+  parked := false;
   let ops = next_list t next_life_op in
   let fuel = nat_of_int 20000 in
   let rec go s ops acc =
     match ops with
     | [] -> List.rev acc
-    | labels :: rest ->
+    | lop :: rest ->
+      (match lop with
+       | Park b -> parked := b; let s3 = if b then s else quiesce cfg fuel s in go s3 rest (snapshot s3 :: acc)
+       | L labels ->
       let s' = List.fold_left (fun so l -> match so with None -> None | Some s -> step cfg s l) (Some s) labels in
       (match s' with
        | None -> List.rev ("DISABLED" :: acc)
-       | Some s2 -> let s3 = quiesce cfg fuel s2 in go s3 rest (snapshot s3 :: acc)) in
+       | Some s2 -> let s3 = if !parked then quiesce_parked cfg 20000 s2 else quiesce cfg fuel s2 in go s3 rest (snapshot s3 :: acc))) in
   String.concat " # " (go init ops [])
 
 (* ---------- C05: sequential writes with an injected socket failure, on Writer.v ---------- *)
@@ -431,10 +451,11 @@ let do_wmodel t =
 (* ---------- C18: the TLS gate ---------- *)
 let do_c18 t =
   let _target = next t in
-  let cfg = (match next t with "tls" -> ServerAuth | "mtls" -> RequireVerify | _ -> NoTls) in
+  let starts p s = String.length s >= String.length p && String.sub s 0 (String.length p) = p in
+  let cfg = (match next t with s when starts "mtls" s -> RequireVerify | s when starts "tls" s -> ServerAuth | _ -> NoTls) in
   let b = (match next t with
       | "plain" -> PlainLdap | "garbage" -> Garbage | "idle" -> ConnectIdle | "abandon" -> AbandonMidway
-      | "tls-nocert" -> TlsNoCert | "tls-otherca" -> TlsOtherCA | "tls-goodcert" -> TlsGoodCert
+      | "tls-nocert" -> TlsNoCert | "tls-otherca" | "tls-otherca-chain" -> TlsOtherCA | "tls-goodcert" -> TlsGoodCert
       | k -> failwith ("bad behaviour " ^ k)) in
   "handler_ran=" ^ b01 (handler_ran std_hs_ok cfg b) ^ " bystanders=11 alive=1"
 
